@@ -192,6 +192,22 @@ def _options_region(fn):
     return None
 
 
+def _own_options_region(fn):
+    """head of the loop over the rules to compile: everything before the rule tree is simplified (the unpacking of the rule entry and
+    whatever is done to its options there)"""
+    import ast
+    for n in ast.walk(fn):
+        if isinstance(n, ast.For) and isinstance(n.target, ast.Name) and n.target.id == 'rule_content':
+            out = []
+            for st_ in n.body:
+                if isinstance(st_, ast.Expr):
+                    break
+                out.append(st_)
+            if out and isinstance(out[0], ast.Assign) and ast.unparse(out[0].value) == 'rule_content' and all(isinstance(x, ast.Assign) for x in out):
+                return out
+    return None
+
+
 def register_options(reg):
     OPT = ('keep_all_tokens', 'expand1', 'priority', 'template_source')
     reg.cls('RuleOptions', target='lark.grammar:RuleOptions', fields=dict({f: 'any' for f in OPT}, empty_indices='any'))
@@ -200,6 +216,14 @@ def register_options(reg):
     reg.contract('copy/RuleOptions', assumed=True, params={'x': 'opt[RuleOptions]'}, returns='opt[RuleOptions]',
                  ensures=['(result is None) == (x is None)', 'implies(x is not None, fresh(val(result)))'] +
                          ['implies(x is not None, val(result).%s == val(x).%s)' % (f, f) for f in OPT + ('empty_indices',)])
+    # every compilation of a Grammar object gives its rules options objects of its OWN (Lark.__init__ strips / negates rule priorities in
+    # place: C05, and another instance built from the same Grammar must not see that: C10 - F47)
+    reg.contract('lark.load_grammar:Grammar.compile#own-options', serves=['C03', 'C10', 'C05'], region=_own_options_region,
+                 params={'rule_content': 'tuple[str,any,opt[RuleOptions]]'},
+                 ghost={'ensures_fall': ['(options is None) == (rule_content[2] is None)', 'implies(options is not None, fresh(val(options)))'] +
+                        ['implies(options is not None, val(options).%s == old(val(rule_content[2]).%s))' % (f, f) for f in OPT + ('empty_indices',)] +
+                        ['implies(options is not None, val(rule_content[2]).%s == old(val(rule_content[2]).%s))' % (f, f) for f in OPT + ('empty_indices',)]},
+                 names={'copy': ('contract', 'copy/RuleOptions'), 'RuleOptions': ('class', 'RuleOptions')}, replay=_replay)
     reg.contract('lark.load_grammar:Grammar.compile#options', serves=['C03'], region=_options_region,
                  params={'options': 'opt[RuleOptions]', 'empty_indices': 'any'},
                  ghost={'ensures_fall': ['fresh(exp_options)', 'exp_options.empty_indices == empty_indices'] +
